@@ -151,19 +151,30 @@ def walker_rule(ctx: Ctx, rid: str, only: tuple = ()) -> None:
                 continue
             verdict: Optional[bool] = True
             why = ""
+            merged = None
+            if wname == "reachability":
+                # tests on names of the enclosing function that the model leaves open (e.g. 'prod in all_sym') are explored both
+                # ways: a symbol counts as reached when some resolution of them reaches it
+                byrepr = {repr(t): t for t in _all_types(ty)}
+                merged = set()
+                for i_, (trace, rv, notes) in enumerate(runs):
+                    if any(e.kind == "raise" for e in trace):
+                        continue
+                    tb = it.envs[i_].get(_reach_table_name(f), {})
+                    for k_, v_ in tb.items():
+                        if repr(PROD) in v_ or "P" in v_:
+                            if k_ not in byrepr:
+                                merged = None      # a destination the model does not know: the iteration was not followed
+                                break
+                            merged.add(byrepr[k_])
+                    if merged is None:
+                        break
+                runs = [r for r in runs if not any(e.kind == "raise" for e in r[0])][:1] or runs[:1]
             for trace, rv, notes in runs:
                 raised = [e for e in trace if e.kind == "raise"]
                 got: Optional[set] = None
                 if wname == "reachability":
-                    tb = it.envs[runs.index((trace, rv, notes))].get(_reach_table_name(f), {})
-                    got = set()
-                    byrepr = {repr(t): t for t in _all_types(ty)}
-                    for k_, v_ in tb.items():
-                        if repr(PROD) in v_ or "P" in v_:
-                            if k_ not in byrepr:
-                                got = None      # a destination the model does not know: the iteration was not followed
-                                break
-                            got.add(byrepr[k_])
+                    got = merged
                 elif wname in ("explode_generics", "collect_types"):
                     vals = []
                     okv = True
